@@ -297,6 +297,16 @@ func Supervise(p *Prop, tier string, seed int64) int {
 					case <-done:
 						break wait
 					case <-tick.C:
+						// a worker that grows beyond 24 GB of resident memory is stopped
+						// (attributed to the journalled case like any other death)
+						if sm, err := os.ReadFile(fmt.Sprintf("/proc/%d/statm", cmd.Process.Pid)); err == nil {
+							if f := strings.Fields(string(sm)); len(f) > 1 {
+								if pages, _ := strconv.ParseInt(f[1], 10, 64); pages*4096 > 24<<30 {
+									os.WriteFile(epath+".oom", []byte("fatal error: worker exceeded 24 GB of resident memory (stopped by the supervisor)\n"), 0o600)
+									cmd.Process.Kill()
+								}
+							}
+						}
 						jb, _ := os.ReadFile(jpath)
 						if string(jb) != lastJournal {
 							lastJournal, lastChange = string(jb), time.Now()
@@ -327,6 +337,9 @@ func Supervise(p *Prop, tier string, seed int64) int {
 				}
 				idx, label, jok := ReadJournal(jpath)
 				stderr, _ := os.ReadFile(epath)
+				if oom, err := os.ReadFile(epath + ".oom"); err == nil {
+					stderr = append(oom, stderr...)
+				}
 				if timedOut {
 					agg.Inconclusive(fmt.Sprintf("watchdog: no progress for %s in chunk [%d,%d) at case %d (%s)", timeout, ch.from, ch.to, idx, label))
 					if jok && idx+1 < ch.to {
